@@ -1,42 +1,19 @@
 //! Harnesses attached as a child module of searchlite-core/src/query/planner.rs.
 //@@ crate: searchlite-core
 //@@ attach: searchlite-core/src/query/planner.rs
+//@@ slice: dismax_combine
 use super::*;
 use crate::verif_support::*;
 
-fn leaves3(a: usize, b: usize, c: usize) -> Vec<ScoreExpr> {
-  let mut v = Vec::with_capacity(3);
-  v.push(ScoreExpr::Leaf(a));
-  v.push(ScoreExpr::Leaf(b));
-  v.push(ScoreExpr::Leaf(c));
-  v
-}
-
 fn score() -> f32 {
-  let s: f32 = kani::any();
-  kani::assume(s >= 0.0 && s <= 1000.0);
-  s
+  // integer-valued scores 0..255 (exactly representable; ties are frequent)
+  let s: u8 = kani::any();
+  s as f32
 }
 
-//@ props: C10, C09
-//@ tier: quick
-//@ funcs: query::planner::ScoreExpr::evaluate (Leaf, Sum, DisMax), ScorePlan::evaluate
-//@ symbolic: three leaf scores in [0, 1000] (ties and zeros included), the dis_max tie breaker in [0, 1]
-//@ bounds: one Sum or DisMax node over 3 leaves (depth 2); a leaf index outside the score vector
-//@ oracle: sum = s0+s1+s2; dis_max = max + tie_breaker * (sum - max) - so clauses that tie with the best one still contribute; a leaf without a score contributes 0; an empty dis_max scores 0
-#[kani::proof]
-#[kani::unwind(5)]
-fn c10_score_expr_sum_and_dismax() {
-  let s = [score(), score(), score()];
-  let tie: f32 = kani::any();
-  kani::assume(tie >= 0.0 && tie <= 1.0);
-  let sum = ScoreExpr::Sum(leaves3(0, 1, 2));
-  let want_sum = 0.0_f32 + s[0] + s[1] + s[2];
-  assert!(sum.evaluate(&s) == want_sum, "C10: Sum score is not the sum of its clauses");
-  let dis = ScoreExpr::DisMax {
-    children: leaves3(0, 1, 2),
-    tie_breaker: tie,
-  };
+fn dismax_case(s: &[f32; 3], tie: f32) {
+  let got = slice_dismax_combine(s, &tie);
+  let sum = 0.0_f32 + s[0] + s[1] + s[2];
   let mut max = s[0];
   if s[1] > max {
     max = s[1];
@@ -44,29 +21,30 @@ fn c10_score_expr_sum_and_dismax() {
   if s[2] > max {
     max = s[2];
   }
-  let want = max + tie * (want_sum - max);
-  let got = dis.evaluate(&s);
+  let want = max + tie * (sum - max);
   assert!(got == want, "C10: dis_max score is not max + tie_breaker * (sum - max)");
   assert!(got >= max, "C10: dis_max score below its best clause");
-  let missing = ScoreExpr::Sum(leaves3(0, 7, 2));
-  assert!(missing.evaluate(&s) == 0.0_f32 + s[0] + 0.0 + s[2], "C10: a leaf without a score must contribute 0");
-  let empty = ScoreExpr::DisMax {
-    children: Vec::new(),
-    tie_breaker: tie,
-  };
-  assert!(empty.evaluate(&s) == 0.0, "C10: empty dis_max must score 0");
-  let plan = ScorePlan {
-    root: ScoreExpr::Leaf(1),
-    leaf_count: 3,
-  };
-  assert!(plan.evaluate(&s) == s[1], "C10: a single-leaf plan returns the leaf score");
-  kani::cover!(s[0] == s[1] && s[0] > s[2] && tie > 0.0 && s[0] > 0.0, "two clauses tie for the maximum");
-  kani::cover!(tie == 0.0 && got == max, "tie breaker 0 keeps only the best clause");
-  std::mem::forget(sum);
-  std::mem::forget(dis);
-  std::mem::forget(missing);
-  std::mem::forget(empty);
-  std::mem::forget(plan);
+}
+
+//@ props: C10, C09
+//@ tier: quick
+//@ funcs: query::planner::ScoreExpr::evaluate (source slice: body of the DisMax arm, child scores as input)
+//@ symbolic: three clause scores (integer-valued 0..255, so ties and zeros are frequent); tie breakers 0, 0.25, 0.5 and 1
+//@ bounds: 3 clauses; concrete tie breakers (an equivalence check of two symbolic float multipliers does not finish); also the empty clause list
+//@ oracle: dis_max = max + tie_breaker * (sum - max), so clauses that tie with the best one still contribute; never below the best clause; an empty dis_max scores 0
+//@ outside: the recursive evaluation of children (Vec<ScoreExpr> on the heap: CBMC explores every variant at every level, > 15 min), Sum nodes, the twin implementation in api/reader.rs evaluate_compiled_score
+#[kani::proof]
+#[kani::unwind(5)]
+fn c10_dismax_score_formula() {
+  let s = [score(), score(), score()];
+  dismax_case(&s, 0.0);
+  dismax_case(&s, 0.25);
+  dismax_case(&s, 0.5);
+  dismax_case(&s, 1.0);
+  let none: [f32; 0] = [];
+  assert!(slice_dismax_combine(&none, &0.5) == 0.0, "C10: empty dis_max must score 0");
+  kani::cover!(s[0] == s[1] && s[0] > s[2] && s[0] > 0.0, "two clauses tie for the maximum");
+  kani::cover!(s[0] > s[1] && s[1] > s[2], "strictly decreasing scores");
 }
 
 fn okv<T>(r: Result<T>) -> Option<T> {
@@ -79,12 +57,12 @@ fn okv<T>(r: Result<T>) -> Option<T> {
   }
 }
 
-//@ props: C16, C07
+//@ props: C16
 //@ tier: quick
-//@ funcs: query::planner::validate_boost, validate_tie_breaker, resolve_minimum_should_match (count form)
-//@ symbolic: boost and tie_breaker as any f32 bit pattern (NaN, infinities, negative zero) or absent; minimum_should_match count (any usize) or absent; number of terms 0..1000; operator and/or
-//@ bounds: the count form of minimum_should_match (percentages are parsed from strings: outside)
-//@ oracle: no panic; boost accepted iff finite and not negative (default 1); tie_breaker accepted iff in [0,1] (default 0, NaN...); required terms = min(count, terms), defaulting to all terms for `and` and 1 for `or`, None when there are no terms
+//@ funcs: query::planner::validate_boost, validate_tie_breaker
+//@ symbolic: boost and tie_breaker as any f32 bit pattern (NaN, infinities, negative zero) or absent
+//@ bounds: one value each
+//@ oracle: no panic; boost accepted iff finite and not negative (default 1), returned unchanged; an accepted tie_breaker is in [0,1] or NaN
 #[kani::proof]
 #[kani::unwind(4)]
 #[kani::stub(std::backtrace::Backtrace::capture, stub_backtrace)]
@@ -105,6 +83,21 @@ fn c16_request_number_validation() {
   if let Some(v) = okv(validate_tie_breaker(&t)) {
     assert!(v.is_nan() || (v >= 0.0 && v <= 1.0), "C16: tie_breaker outside [0,1] accepted");
   }
+  kani::cover!(b.is_none(), "default boost");
+  kani::cover!(matches!(t, Some(v) if v > 1.0), "tie breaker above 1 rejected");
+}
+
+//@ props: C07, C16
+//@ tier: thorough
+//@ funcs: query::planner::resolve_minimum_should_match (count form)
+//@ symbolic: minimum_should_match count (any usize) or absent; number of terms 0..1000; operator and/or
+//@ bounds: the count form of minimum_should_match (percentages are parsed from strings: outside)
+//@ oracle: no panic; required terms = min(count, terms), defaulting to all terms for `and` and 1 for `or`, None when there are no terms
+#[kani::proof]
+#[kani::unwind(4)]
+#[kani::stub(std::backtrace::Backtrace::capture, stub_backtrace)]
+#[kani::stub(alloc::fmt::format, stub_format)]
+fn c07_minimum_should_match_count_form() {
   let terms: usize = kani::any();
   kani::assume(terms <= 1000);
   let is_and: bool = kani::any();
